@@ -25,12 +25,21 @@ def run(P, rep, tier):
                        'neither the printer nor the splices protect expansion boundaries. Not decided: that no adjacent pair of spellings fuses.')
     rep.assumptions += ['tokenize() gives the first token of a buffer at_bol=true/has_space=false (checked on the empty buffer and by the fresh-token wiring obligations)',
                         'loops over token lists are analysed for 0..2 generic iterations', 'clang 14 typed AST']
-    protect = r_printer(P, rep)
-    r_join(P, rep)
-    r_tokenize(P, rep)
-    r_copy(P, rep)
-    r_expand(P, rep, protect)
-    r_subst(P, rep, protect)
+    def part(rule, name, f):
+        try:
+            return f()
+        except AnalysisBroken as e:
+            rep.undecided(rule, '%s:analysis' % name, 'analysis could not proceed: %s' % e)
+        return None
+
+    protect = part('R19.1', 'main.c:print_tokens', lambda: r_printer(P, rep))
+    if protect is None:
+        protect = False     # only ever makes R19.3 stricter; the run is already undecided
+    part('R19.1', 'preprocess.c:join_adjacent_string_literals', lambda: r_join(P, rep))
+    part('R19.2', 'tokenize.c:tokenize', lambda: r_tokenize(P, rep))
+    part('R19.2', 'preprocess.c:copy_token', lambda: r_copy(P, rep))
+    part('R19.2', 'preprocess.c:expand_macro', lambda: r_expand(P, rep, protect))
+    part('R19.2', 'preprocess.c:subst', lambda: r_subst(P, rep, protect))
 
 
 # ---------------------------------------------------------------------- printer ---
